@@ -336,9 +336,12 @@ def main(argv=None):
     t0 = time.time()
     sys.path.insert(0, os.path.join(VERIF, 'harness'))
     plugin = importlib.import_module('props.' + pid.lower())
-    work = os.path.join(VERIF, '.work', pid)
+    # private scratch directory per invocation (concurrent runs of the same check must not share case files)
+    work = os.path.join(VERIF, '.work', '%s.%d' % (pid, os.getpid()))
     shutil.rmtree(work, ignore_errors=True)
     os.makedirs(work, exist_ok=True)
+    import atexit
+    atexit.register(lambda: shutil.rmtree(work, ignore_errors=True))
     imports = plugin.COQ_IMPORTS
     preamble = getattr(plugin, 'COQ_PREAMBLE', '')
     shard = getattr(plugin, 'SHARD', 200)
